@@ -122,6 +122,22 @@ def run(ctx, res):
     bytes_cases(ctx, res, "byte_files", datas[: len(datas) // 2], False)
     bytes_cases(ctx, res, "byte_files", datas[len(datas) // 2:], True)
     res.sample({"data": datas[3].hex()})
+    # long files: every buffer boundary a reader could use (2^k up to 64 KiB) falls on a separator, just after one, or just before one
+    long = []
+    for w in ([3, 63, 127, 255, 4095] if not ctx.thorough else [1, 3, 7, 15, 31, 63, 127, 255, 511, 1023, 2047, 4095, 8191]):
+        for sep in (b"\r", b"\n", b"\r\n"):
+            width = w + 1 - len(sep)
+            if width < 1:
+                continue
+            unit = bytes([65 + w % 26]) * width + sep
+            total = ctx.rng.choice([8300, 8300, 16500, 66000]) if ctx.thorough else 8300
+            body = unit * (total // len(unit) + 2)
+            for shift in ([0, 1] if not ctx.thorough else [0, 1, 2, len(unit) - 1]):
+                long.append(b"Z" * shift + body)
+    long.append(b"".join(b"%d REM %s\r" % (10 * (i + 1), b"*" * 55) for i in range(70)))
+    bytes_cases(ctx, res, "long_files", long[::2], False)
+    bytes_cases(ctx, res, "long_files", long[1::2], True)
+    text_case(ctx, res, "long_files", "".join("%d REM %s\n" % (10 * (i + 1), "*" * (63 - len(str(10 * (i + 1))) - 5)) for i in range(140)))
     L = 9 if ctx.thorough else 6
     st = res.stream(f"exhaustive_bytes_len<={L}", exhaustive=True)
     allb = [bytes(t) for k in range(L + 1) for t in itertools.product([13, 10, 65, 32], repeat=k)]
